@@ -21,8 +21,11 @@ Proof. split; [apply same_view_refl|reflexivity]. Qed.
 Lemma svs_trans a b c : svs a b -> svs b c -> svs a c.
 Proof. intros [A1 A2] [B1 B2]. split; [eapply same_view_trans; eauto|congruence]. Qed.
 
-Lemma devs_svs err p s s' : svs s s' -> devs err p s p s'.
+Lemma devs_svs ib err p s s' : svs s s' -> devs ib err p s p s'.
 Proof. intros [H1 H2]. apply devs_same_state; assumption. Qed.
+
+Lemma D0_svs s s' : svs s s' -> D0 s s'.
+Proof. intros H ib. apply devs_svs. exact H. Qed.
 
 Ltac sv_auto := unfold svs, same_view; vsimpl; repeat split; auto.
 
@@ -213,7 +216,7 @@ Proof. intro H. unfold data_view. cbn [flat_map]. rewrite H. reflexivity. Qed.
 Lemma send_data_ev (s : vsock) h f :
   item_ok (v_segs s) f ->
   stp (send_data s h f)
-      (fun s' _ => devs false 0 s 0 s' /\ (forall f', item_ok (v_segs s) f' -> item_ok (v_segs s') f'))
+      (fun s' _ => D0 s s' /\ (forall f', item_ok (v_segs s) f' -> item_ok (v_segs s') f'))
       (fun s' => svs s s').
 Proof.
   intros (g & G1 & G2 & G3 & G4 & G5). unfold send_data.
@@ -233,18 +236,18 @@ Proof.
                  || (Z.of_nat (length (ring (v_tx s))) <? sg_abs g - ss_removed (v_segs s) + sg_size g) = false).
     { rewrite <- G4, G3. lia. }
     destruct (seq_gt _ _); [destruct (seq_gt _ _)|]; unfold on_packet_sent, emit; (split;
-      [apply (devs_one false (EvSend i (v_now s)));
+      [intro ib; apply (devs_one ib false (EvSend i (v_now s)));
         [unfold dview_of; vsimpl; cbn [dapply x_pend x_segs x_tx x_rx x_lc x_out];
          change (negb (0 =? 0)) with false; cbv iota; rewrite Hi;
          cbn [fs_payload_offset fs_seg fs_idx fs_seq]; rewrite Hg;
          rewrite data_view_cons_data by reflexivity; cbn [p_hdr p_payload ch_seq];
          rewrite A1, A2, A3, A4, A9, A10, <- G4, G3, <- G5; reflexivity
-        |exact I|reflexivity|reflexivity|vsimpl; exact A6
+        |exact I|discriminate|discriminate|vsimpl; exact A6
         |unfold rfin; vsimpl; rewrite A8; auto|vsimpl; rewrite A7; auto]
       |intros f' Hf'; vsimpl; rewrite A2, A10; apply item_ok_on_sent; exact Hf']).
-  - split; [apply devs_same_state; [unfold same_view; vsimpl; repeat split; auto|vsimpl; exact A8]|].
+  - split; [intro ib; apply devs_same_state; [unfold same_view; vsimpl; repeat split; auto|vsimpl; exact A8]|].
     intros f' Hf'. vsimpl. rewrite A2. exact Hf'.
-  - split; [apply devs_same_state; [unfold same_view; repeat split; auto|exact A8]|].
+  - split; [intro ib; apply devs_same_state; [unfold same_view; repeat split; auto|exact A8]|].
     intros f' Hf'. rewrite A2. exact Hf'.
   - unfold svs, same_view. repeat split; auto.
 Qed.
